@@ -11,6 +11,7 @@ import itertools, os
 import fw
 
 CHARS = 'ACGTN@+:;IF#\n01ab'
+EXC_KINDS = ['EMFILE', 'ENFILE', 'EINTR', 'EAGAIN', 'ENOMEM', 'EACCES', 'plain']
 
 
 def fa_consistent(ops):
@@ -197,7 +198,9 @@ class Prop(fw.PropBase):
         'buffering, gzip framing (concatenated members read back as the concatenation - checked by reading every file '
         'back with gzip in K) and UTF-8 encoding are outside the model',
         'modelled not verified: OS faults are a function of (index of the open() call, path, descriptors currently '
-        'open); write()/close() of an opened handle never fail (disk full is out of scope); time.time() is strictly '
+        'open) and not of the kind of failure: K injects OSError with errno EMFILE / ENFILE / EINTR / EAGAIN / ENOMEM / EACCES '
+        'and an OSError without errno, in rotation per fault script (the oracle is errno-agnostic, as the code must be); '
+        'write()/close() of an opened handle never fail (disk full is out of scope); time.time() is strictly '
         'increasing between writes (logical clock; the harness substitutes one)',
         'K harness: tools/impl_c19.py replaces gzip.open, handlelimiter.open and handlelimiter.time for the duration '
         'of a case; real descriptor exhaustion is exercised only in the rlimit cases (RLIMIT_NOFILE lowered)',
@@ -230,6 +233,15 @@ class Prop(fw.PropBase):
         n = self.rng.randint(1, 12)
         return '%d:' % i + ''.join(self.rng.choice(CHARS) for _ in range(n))
 
+    def rand_exc(self):
+        """kinds of the injected open() failures, used in rotation (the model's oracle does not see them)"""
+        r = self.rng.random()
+        if r < 0.3:
+            return ['EMFILE']
+        if r < 0.6:
+            return [self.rng.choice(EXC_KINDS[1:])]
+        return [self.rng.choice(EXC_KINDS) for _ in range(self.rng.randint(2, 4))]
+
     def gen_case(self, big=False):
         rng = self.rng
         npaths = rng.choice([1, 2, 3, 3, 4, 5, 6, 8, 12]) if not big else rng.choice([30, 60, 120, 200])
@@ -254,7 +266,8 @@ class Prop(fw.PropBase):
         sc = {'limit': rng.choice([0, 0, 1, 1, 2, 2, 3, 4, 5, 8]) if not big else rng.choice([1, 2, 5, 17, 50]),
               'soft': sorted(rng.sample(range(natt), rng.choice([0, 0, 1, 2, 3, min(8, natt)]))),
               'hard': sorted(rng.sample(range(natt), rng.choice([0, 0, 0, 0, 1, 2]))),
-              'perm': [rng.choice(pids)] if rng.random() < 0.12 else []}
+              'perm': [rng.choice(pids)] if rng.random() < 0.12 else [],
+              'exc': self.rand_exc()}
         return {'maxHandles': rng.choice([1, 1, 2, 2, 3, 4, 4, 0, -1, 32]) if not big else rng.choice([1, 4, 16, 64, 500]),
                 'pruneEvery': rng.choice([1, 1, 2, 3, 4, 5, 5, 7, 0, 10000]) if not big else rng.choice([1, 5, 50, 10000]),
                 'script': sc, 'init': init, 'ops': ops, 'plain': plain,
@@ -283,6 +296,7 @@ class Prop(fw.PropBase):
                 ops = [[p, '%d%s' % (i, 'abc'[p - 1]), 0] for i, p in enumerate(seq)]
                 for (mh, pe) in cfgs:
                     for sc in scripts:
+                        sc = dict(sc, exc=[EXC_KINDS[len(out) % len(EXC_KINDS)], EXC_KINDS[(len(out) // 7) % len(EXC_KINDS)]])
                         out.append({'maxHandles': mh, 'pruneEvery': pe, 'script': sc, 'init': [[1, 'old']],
                                     'ops': ops, 'plain': [3], 'univ': [1, 2, 3]})
         return out
@@ -312,7 +326,8 @@ class Prop(fw.PropBase):
                     names.setdefault(fn, len(names) + 1)
                 pairs.append(pair)
             sc = {'limit': rng.choice([0, 3, 7, 20]) if not long else rng.choice([11, 25]),
-                  'soft': sorted(rng.sample(range(npairs), min(npairs, rng.choice([0, 2, 5])))), 'hard': [], 'perm': []}
+                  'soft': sorted(rng.sample(range(npairs), min(npairs, rng.choice([0, 2, 5])))), 'hard': [], 'perm': [],
+                  'exc': self.rand_exc()}
             out.append({'prefix': prefix, 'maxHandles': rng.choice([1, 2, 8, 500]) if not long else 8,
                         'script': sc, 'pairs': pairs, 'names': names})
         return out
@@ -391,7 +406,7 @@ class Prop(fw.PropBase):
         runs = self.run_everything()
         ok_runs = [(l, c, r) for l, c, r in runs if c is not None]
         nt = set()
-        h_paths, h_mh, h_pe, h_lim, h_status = {}, {}, {}, {}, {}
+        h_paths, h_mh, h_pe, h_lim, h_status, h_exc = {}, {}, {}, {}, {}, {}
         n_fail_open = n_reopen = n_recover = good = 0
 
         def bump(h, k):
@@ -402,6 +417,8 @@ class Prop(fw.PropBase):
             np_ = len(set(o[0] for o in c['ops']))
             bump(h_paths, '1' if np_ == 1 else '2-3' if np_ <= 3 else '4-12' if np_ <= 12 else '13-60' if np_ <= 60 else '61-200')
             bump(h_mh, c['maxHandles']); bump(h_pe, c['pruneEvery']); bump(h_lim, c['script'].get('limit', 0))
+            for kind in set(c['script'].get('exc') or ['EMFILE']):
+                bump(h_exc, kind)
             if not r.get('error'):
                 bump(h_status, {0: 'completed', 1: 'raised OSError'}.get(r['status'], 'raised other'))
                 n_fail_open += sum(1 for e in r['trace'] if e[0] == 0 and e[4] == 0)
@@ -417,7 +434,7 @@ class Prop(fw.PropBase):
                     'in append mode; distinct by hash of the whole case',
             'case_groups': self.sizes,
             'histogram_distinct_paths': h_paths, 'histogram_maxHandles': h_mh, 'histogram_pruneEvery': h_pe,
-            'histogram_emfile_limit': h_lim, 'histogram_outcome': h_status,
+            'histogram_emfile_limit': h_lim, 'histogram_injected_exception_kinds': h_exc, 'histogram_outcome': h_status,
             'open_calls_failed': n_fail_open, 'reopens_in_append_mode': n_reopen,
             'recoveries_close_all_and_retry': n_recover,
             'precondition_hit_rate': round(good / max(1, len(ok_runs)), 4),
